@@ -41,6 +41,9 @@ DOCS = [
     '\\section{Titel Wabcq}\nText Wabdq --- noch Wabeq \\cite{x}\n\\begin{itemize}\\item Wabfq\n\\end{itemize}\n',
     'a Wabcq b\n',
     'Zeile eins Wabcq\nZeile zwei Wabdq\nZeile drei\nZeile vier Wabeq\nZeile f\u00fcnf\nZeile sechs\nZeile sieben\nZeile acht\nZeile neun\n',
+    # removed lines between two short text lines: a match at the start of the second line has its preceding plain character far away
+    # (every offset / length pair inside the text, all report formats - round-5 seed C15-I)
+    'Ab\n% c\n\\label{k}\nWabcq\\footnote{e} d\n',
 ]
 TYPES = [None, True, 7, 1.5, 'str', [], {}]
 PERT = [-1, 0, 1, 'len-1', 'len', 'len+1', 'len+2', 'len+3', 10 ** 6, -10 ** 6, 2 ** 31, 2 ** 62, -2 ** 62, 10 ** 30]
@@ -147,7 +150,7 @@ def mutations(plain, tier, rnd):
                             a = {'matches': [dict(copy.deepcopy(m0), offset=o1, length=l1), dict(copy.deepcopy(m0), offset=o2, length=l2),
                                              dict(copy.deepcopy(m0), offset=min(o2 + 1, n - 1), length=1)]}
                             yield 'multi:%d+%d,%d+%d' % (o1, l1, o2, l2), json.dumps(a, ensure_ascii=False).encode('utf-8'), False
-    if n <= 14:
+    if n <= 18:
         m0 = base['matches'][0] if base['matches'] else fakelt.make_match(plain, 0, 1, 1)
         for o in range(n):
             for ln in range(0, n - o + 1):
@@ -244,6 +247,8 @@ def run_shard(ctx):
         muts = list(mutations(plain, ctx.tier, rnd))
         if di == 4:
             muts = [m for m in muts if m[0].startswith('multi:')]
+        if di == 5:
+            muts = [m for m in muts if m[0].startswith('in-range:')]
         if quick and di in (1, 2):
             # thin the type changes deterministically on two of the documents: the quick tier keeps every deletion, perturbation, truncation class
             muts = [m for j, m in enumerate(muts) if not m[0].startswith('type:') or (j + ctx.seed) % 4 == 0]
@@ -251,6 +256,8 @@ def run_shard(ctx):
             modes = [MODES[(j + di + ctx.seed) % 5]] if quick else MODES
             if label.startswith('multi:') and quick:
                 modes = ['html', MODES[(j + ctx.seed) % 4]]
+            if di == 5:
+                modes = MODES
             for mode in modes:
                 idx += 1
                 if idx % ctx.nshards != ctx.shard:
